@@ -3,6 +3,7 @@ package main
 import (
 	"fmt"
 	"go/token"
+	"go/types"
 	"sort"
 	"strings"
 
@@ -17,10 +18,13 @@ import (
 type pstate struct {
 	phi   map[*ssa.Phi]ssa.Value
 	facts map[string]string // key -> "=<const>" | "!=<const>" | free-form values set by the client
+	// coarse: only boolean phi choices and client facts distinguish states, and opaque conditions are not
+	// remembered. Sound for clients whose verdict depends on boolean flags and their own facts only.
+	coarse bool
 }
 
 func (s *pstate) clone() *pstate {
-	n := &pstate{phi: make(map[*ssa.Phi]ssa.Value, len(s.phi)), facts: make(map[string]string, len(s.facts))}
+	n := &pstate{phi: make(map[*ssa.Phi]ssa.Value, len(s.phi)), facts: make(map[string]string, len(s.facts)), coarse: s.coarse}
 	for k, v := range s.phi {
 		n.phi[k] = v
 	}
@@ -36,6 +40,11 @@ func (s *pstate) key() string {
 		ks = append(ks, k+v)
 	}
 	for p, v := range s.phi {
+		if s.coarse {
+			if b, ok := p.Type().Underlying().(*types.Basic); !ok || b.Kind() != types.Bool {
+				continue
+			}
+		}
 		ks = append(ks, p.Name()+"<-"+v.Name())
 	}
 	sort.Strings(ks)
@@ -171,6 +180,9 @@ func (s *pstate) assume(cond ssa.Value, val bool) bool {
 		return true
 	}
 	// opaque condition: remember its truth value so that a repeated test of the same value is consistent
+	if s.coarse {
+		return true
+	}
 	k := "cond:" + s.vkey(cond)
 	want := "=false"
 	if val {
